@@ -107,6 +107,17 @@ func (l *vSwL) set(accept bool) error {
 	}
 	return err
 }
+// the upstream finishes sending on every connection it holds (half-close); the connections stay open
+func (l *vSwL) halfCloseAll() {
+	l.mu.Lock()
+	defer l.mu.Unlock()
+	for c := range l.open {
+		if tc, ok := c.(*net.TCPConn); ok {
+			_ = tc.CloseWrite()
+		}
+	}
+}
+
 func (l *vSwL) nOpen() int { l.mu.Lock(); defer l.mu.Unlock(); return len(l.open) }
 func (l *vSwL) shutdown() {
 	l.mu.Lock()
@@ -742,6 +753,15 @@ func vRunHistory(spec vHSpec, script []string, seed uint64) (res vHResult) {
 			if arg < len(w.lst) {
 				w.probe(arg)
 			}
+		case "halfclose":
+			// upstream arg has nothing more to send on its connections; they are still proxied (the client has
+			// not finished) and keep their slots
+			if arg < len(w.topo) {
+				for _, p := range w.topo[arg] {
+					w.lst[p].halfCloseAll()
+				}
+				time.Sleep(20 * time.Millisecond)
+			}
 		case "hold", "unhold":
 			// a connection to upstream arg held by somebody else sharing the peers (another handler dialing the
 			// same address): counted on its peers, as Handle does
@@ -1011,6 +1031,16 @@ func TestVerifC11(t *testing.T) {
 			spec := vHSpec{topo: [][]bool{{true}, {true}}, passive: true, failDur: time.Duration(fd) * ms, maxFails: mf, tryDur: 0, policy: "first"}
 			addHist(spec, []string{"fail:0", "sleep:60", "fail:0", "sleep:80", "fail:0", "sleep:120", "fail:0", "conn", "expire", "conn", "close:0", "close:0"})
 		}
+	}
+	// 4e. a connection whose upstream has finished sending (half-close) is still open and keeps its slot
+	for i, pol := range []string{"first", "least_conn", "round_robin"} {
+		spec := vHSpec{topo: [][]bool{{true}, {true}}, passive: i == 1, maxConns: []int{1, 0}, tryDur: 0, policy: pol}
+		if i == 1 {
+			spec.maxConns, spec.unhealthyCnt = nil, 1
+			spec.topo = [][]bool{{true}}
+			spec.tryDur, spec.tryInt = 60*ms, 30*ms
+		}
+		addHist(spec, []string{"conn", "halfclose:0", "conn", "conn", "close:0", "conn", "close:0", "close:0", "close:0"})
 	}
 	// 4d. fail-over under every shipped selection policy: the upstream listed first is out of rotation
 	// (remembered failure / failed active check / at its connection limit) and has the fewest open
